@@ -55,6 +55,12 @@ def run_cli(workdir, jobs, timeout=15, workers=None):
             if os.path.exists(p):
                 with open(p, "rb") as f:
                     res["files"][rel] = f.read().decode("utf-8", "replace")
+        if j.get("keepglob"):          # every file of the project directory matching a pattern
+            import glob as _glob
+            for fp in _glob.glob(os.path.join(proj, j["keepglob"])):
+                if os.path.isfile(fp):
+                    with open(fp, "rb") as f:
+                        res["files"][os.path.relpath(fp, proj)] = f.read().decode("utf-8", "replace")
         if not j.get("leave"):
             shutil.rmtree(d, ignore_errors=True)
         return j["id"], res
